@@ -270,6 +270,7 @@ func formatExprStmt(ctx *formatCtx, v *ast.ExprStmt) {
 func formatAssignStmt(ctx *formatCtx, v *ast.AssignStmt) {
 	formatExprs(ctx, v.Lhs)
 	formatExprs(ctx, v.Rhs)
+	ctx.defineIdents(v.Tok, v.Lhs...)
 }
 
 func formatSwitchStmt(ctx *formatCtx, v *ast.SwitchStmt) {
@@ -307,6 +308,7 @@ func formatRangeStmt(ctx *formatCtx, v *ast.RangeStmt) {
 	formatExpr(ctx, v.Key, &v.Key)
 	formatExpr(ctx, v.Value, &v.Value)
 	formatExpr(ctx, v.X, &v.X)
+	ctx.defineIdents(v.Tok, v.Key, v.Value)
 	formatBlockStmt(ctx, v.Body)
 }
 
